@@ -145,7 +145,7 @@ def run(ctx):
         ctx.log(out[-2000:])
         return
     profiles = ["dev"] if ctx.tier == "quick" else ["dev", "release"]
-    sessions = 220 if ctx.tier == "quick" else 4000
+    sessions = 1200 if ctx.tier == "quick" else 12000
     stats = {"foreign": 0}
     total, distinct, tied = 0, set(), 0
     corpus = sorted(glob.glob(os.path.join(vlib.VERIF, "corpus", "C13", "*.sx")))
